@@ -450,6 +450,9 @@ func (c *fnCtx) call(call *ast.CallExpr, next int) int {
 				return c.primitive(cls, call, next)
 			}
 			if purePkgs[id.Name] {
+				if govPkgs[id.Name] {
+					c.notePure(q, "", "", call)
+				}
 				return next
 			}
 			return c.node("unknown", q, "", 0, next, 0, call)
